@@ -8,6 +8,7 @@ import (
 	"os"
 	"os/exec"
 	"path/filepath"
+	"runtime"
 	"strings"
 	"time"
 
@@ -220,6 +221,11 @@ func conformLifted(name string, flags map[string]string, s conformSession) (res 
 		case <-d.Closed():
 			return nil
 		case <-time.After(90 * time.Second):
+			buf := make([]byte, 1<<20)
+			buf = buf[:runtime.Stack(buf, true)]
+			if os.Getenv("VERIF_TRACE") != "" {
+				fmt.Fprintf(os.Stderr, "goroutines at the time-out:\n%s\n", buf)
+			}
 			return fmt.Errorf("the driver did not shut down within 90s of quit / end of input")
 		}
 	}
